@@ -14,6 +14,8 @@ type oaParam struct {
 	in, name string
 	required bool
 	schema   any
+	style    string // "" = the default of the location
+	explode  *bool  // nil = the default of the style
 }
 
 func (d *oaDoc) params(item, op map[string]any) []oaParam {
@@ -28,7 +30,12 @@ func (d *oaDoc) params(item, op map[string]any) []oaParam {
 			in, _ := pm["in"].(string)
 			name, _ := pm["name"].(string)
 			req, _ := pm["required"].(bool)
-			out = append(out, oaParam{in, name, req, pm["schema"]})
+			style, _ := pm["style"].(string)
+			var explode *bool
+			if e, ok := pm["explode"].(bool); ok {
+				explode = &e
+			}
+			out = append(out, oaParam{in, name, req, pm["schema"], style, explode})
 		}
 	}
 	return out
@@ -80,9 +87,27 @@ func (d *oaDoc) judgeRequest(w *rt.WireReq) (matched bool, errs []string, ambigu
 			}
 		}
 	}
-	for _, p := range d.params(item, op) {
+	allParams := d.params(item, op)
+	for _, p := range allParams {
 		var vals []string
 		present := false
+		if p.in == "query" {
+			if ps := d.deref(p.schema); ps != nil && ps["type"] == "object" {
+				// an object-valued query parameter: its members are spelled as the style says
+				obj, perr := d.queryObject(p, ps, q, allParams)
+				switch {
+				case perr != "":
+					errs = append(errs, "type@query:"+p.name+": "+perr)
+				case len(obj) == 0:
+					if p.required {
+						errs = append(errs, "required@query:"+p.name+": missing")
+					}
+				default:
+					d.eval(p.schema, obj, "query:"+p.name, &errs, 0)
+				}
+				continue
+			}
+		}
 		switch p.in {
 		case "path":
 			v, ok := vars[p.name]
@@ -427,4 +452,92 @@ func (d *oaDoc) evalHeader(schema any, vals []string, path string) []string {
 		}
 	}
 	return best
+}
+
+// queryObject deserialises an object-valued query parameter. deepObject: name[key]=value pairs. form (the default
+// style of the query location) with explode (its default): every member is a query parameter of its own, so every
+// query name no other documented parameter claims is a member. form without explode: name=k1,v1,k2,v2.
+func (d *oaDoc) queryObject(p oaParam, schema map[string]any, q url.Values, all []oaParam) (map[string]any, string) {
+	member := func(key string) any {
+		if props, ok := schema["properties"].(map[string]any); ok {
+			if ms, ok := props[key]; ok {
+				return ms
+			}
+		}
+		if ap, ok := schema["additionalProperties"]; ok {
+			if _, isBool := ap.(bool); !isBool {
+				return ap
+			}
+		}
+		return nil
+	}
+	obj := map[string]any{}
+	put := func(key string, vals []string) string {
+		ms := member(key)
+		if ms == nil {
+			if len(vals) == 1 {
+				obj[key] = vals[0]
+			} else {
+				out := make([]any, len(vals))
+				for i, v := range vals {
+					out[i] = v
+				}
+				obj[key] = out
+			}
+			return ""
+		}
+		if mm := d.deref(ms); mm != nil && mm["type"] != "array" && len(vals) > 1 {
+			return "several values for the scalar member " + key
+		}
+		v, perr := d.parseParam(ms, vals)
+		if perr != "" {
+			return "member " + key + ": " + perr
+		}
+		obj[key] = v
+		return ""
+	}
+	style := p.style
+	if style == "" {
+		style = "form"
+	}
+	explode := style == "form"
+	if p.explode != nil {
+		explode = *p.explode
+	}
+	switch {
+	case style == "deepObject":
+		for name, vals := range q {
+			if strings.HasPrefix(name, p.name+"[") && strings.HasSuffix(name, "]") {
+				if e := put(name[len(p.name)+1:len(name)-1], vals); e != "" {
+					return nil, e
+				}
+			}
+		}
+	case style == "form" && explode:
+		claimed := map[string]bool{}
+		for _, o := range all {
+			if o.in == "query" && o.name != p.name {
+				claimed[o.name] = true
+			}
+		}
+		for name, vals := range q {
+			if !claimed[name] {
+				if e := put(name, vals); e != "" {
+					return nil, e
+				}
+			}
+		}
+	case style == "form":
+		for _, raw := range q[p.name] {
+			parts := strings.Split(raw, ",")
+			for i := 0; i+1 < len(parts); i += 2 {
+				if e := put(parts[i], []string{parts[i+1]}); e != "" {
+					return nil, e
+				}
+			}
+		}
+	default:
+		return nil, "style " + style + " is not defined for objects in the query string"
+	}
+	return obj, ""
 }
